@@ -662,6 +662,8 @@ RTRLIB_EXPORT int rtr_mgr_for_each_group(struct rtr_mgr_config *config,
 
 RTRLIB_EXPORT const char *rtr_mgr_status_to_str(enum rtr_mgr_status status)
 {
+	if ((int)status < 0 || (size_t)status >= sizeof(mgr_str_status) / sizeof(mgr_str_status[0]))
+		return NULL;
 	return mgr_str_status[status];
 }
 
